@@ -62,8 +62,8 @@ class _CheapCudd:
         return getattr(self._mod, k)
 
     def BDD(self, *a, **kw):
-        kw.setdefault('memory_estimate', 2**28)
-        kw.setdefault('initial_cache_size', 2**10)
+        kw.setdefault('memory_estimate', 2**26)
+        kw.setdefault('initial_cache_size', 2**8)
         return self._mod.BDD(*a, **kw)
 
 
